@@ -703,7 +703,31 @@ def rule_caps_from_the_turns_config(ctx) -> None:
                "defaults (L2 1.5, novelty 0.3, churn 64, no cooldowns) - more deltas, larger deltas and cooled-down operations are approved than the configuration allows") if gaps else "")
 
 
+def rule_zero_cap_is_a_cap(ctx) -> None:
+    """"at most churn-cap many" for every accepted cap: the validator accepts churn_cap_edges = 0 (approve nothing).  The
+    stage's own coercion of the caps must keep that 0: `x.get(k) or default` / `if x.get(k)` turn it into the default (64)."""
+    from ..zero import ZeroIsValue
+    ZERO_OK = ("churn_cap_edges",)
+
+    def source(e: ast.AST) -> bool:
+        return isinstance(e, ast.Call) and isinstance(e.func, ast.Attribute) and e.func.attr == "get" and e.args and const_str(e.args[0]) in ZERO_OK
+
+    n_r = 0
+    for fn in ctx.prog.module("clematis.engine.stages.t4").funcs.values():
+        if not any(source(x) for x in walk_no_defs(fn.node)):
+            continue
+        n_r += 1
+        z = ZeroIsValue(ctx, fn, source)
+        bad = list(z.conflations(positivity=False))
+        ctx.check(not bad, "C03.BOUND", f"{fn.qual}/zero-churn-cap-is-a-cap", fn.loc(bad[0][0]) if bad else fn.loc(),
+                  "the configured churn cap is never tested by truthiness: 0 stays 0",
+                  (f"the churn cap is tested by {bad[0][2]} (`{bad[0][1][:60]}`): a configured 0 (approve nothing - accepted by the validator) becomes the default cap, "
+                   "so up to 64 deltas are approved under a cap of 0") if bad else "")
+    ctx.floor("C03.BOUND", "readers of t4.churn_cap_edges in the T4 stage", n_r, 1)
+
+
 def run(ctx) -> None:
+    rule_zero_cap_is_a_cap(ctx)
     rule_caps_from_the_turns_config(ctx)
     rule_pure(ctx)
     rule_pipe(ctx)
